@@ -897,7 +897,7 @@ func main() {
 	close(jobs)
 	tGen := time.Since(t0)
 	wg.Wait()
-	fmt.Fprintf(os.Stderr, "c20: generator done after %.1fs, workers done after %.1fs\n", tGen.Seconds(), time.Since(t0).Seconds())
+	fmt.Fprintf(os.Stderr, "C20: layout generator done after %.1fs, workers done after %.1fs\n", tGen.Seconds(), time.Since(t0).Seconds())
 
 	// merge
 	tot := newStats()
@@ -1028,10 +1028,11 @@ func main() {
 // sampleCases writes out a few explored cases (layout, records, stream).
 func sampleCases(b *bounds) []any {
 	var out []any
-	n := 0
+	seen := map[string]int{}
 	generate(b, func(j job) {
-		n++
-		if len(out) >= 8 || (n%997 != 1 && j.l.family != "full") || (j.l.family == "full" && n%389 != 0) {
+		seen[j.l.family]++
+		n := seen[j.l.family]
+		if len(out) >= 8 || (n != 7 && !(n == 301 && (j.l.family == "ordered-pair" || j.l.family == "full"))) {
 			return
 		}
 		f, err := kgo.NewRecordFormatter(j.l.str)
@@ -1039,7 +1040,7 @@ func sampleCases(b *bounds) []any {
 			return
 		}
 		ss := j.streams(j.l)
-		recs := ss[len(ss)-1]
+		recs := ss[len(ss)*2/3]
 		stream, _ := write(j.l, f, recs)
 		var rs []string
 		for i := range recs {
